@@ -1,0 +1,19 @@
+//go:build verif
+
+package asm
+
+import "bytes"
+
+// VerifWriteSize exposes the assembler's integer field encoder. Verification builds only.
+func VerifWriteSize(n uint32) ([]byte, error) {
+	b := bytes.NewBuffer(nil)
+	_, err := writeSize(b, n)
+	return b.Bytes(), err
+}
+
+// VerifWriteSym exposes the assembler's string field encoder. Verification builds only.
+func VerifWriteSym(s string) ([]byte, error) {
+	b := bytes.NewBuffer(nil)
+	_, err := writeSym(b, s)
+	return b.Bytes(), err
+}
